@@ -46,7 +46,8 @@ REQUIRED = ["wf_run", "shape_inv", "shape_inv_outputs", "shape_inv_vk", "shape_i
             "unique_and_convergent", "vk_stable", "stencil_step", "contraction_needed", "vkKernel_rowOK", "vk_state_recursion",
             "start_forgotten", "vk_stable_concrete", "friedKernel_rowOK", "unstable_diverges", "vk_block_stationary",
             "covZZ_symm", "covZX_transpose", "vk_stable_from_cov",
-            "exposed_fixed_point", "exposed_model_cov_not_fixed", "exposed_stationary_limit"]
+            "exposed_fixed_point", "exposed_model_cov_not_fixed", "exposed_stationary_limit",
+            "companionG_gram", "stationary_scales", "stationary_scales_unique"]
 
 VARIANTS = ("vk", "fried")
 # realistic parameter domain of the quantitative (stability / stationary-covariance) oracle; see `rule`
@@ -1057,7 +1058,7 @@ def cast_twins(chk, rng, quick):
             # sizes 128 … 255 as numpy.uint8 with the stencil depth in the same type: products of the two wrap in 8 bits (seeded change
             # C05-L built the von Karman stencil from numpy.arange(n_columns * nx_size): 2·200 -> 144 points, all in row 0)
             cast = "uint8"
-            cfg = with_par(gen_cfg(rng, 12, variant=rng.choice(VARIANTS + ("vk",))), 2)
+            cfg = with_par(gen_cfg(rng, 12, variant="vk"), 2)      # von Karman only: the Fried variant's working size (257) does not fit the type and numpy refuses it loudly
             cfg["req"] = rng.choice([129, 130, 150, 200])
         if cast == "pyint":         # whole metres: pixel 1 … 3 m, outer scale a few … 40 pixels
             cfg["px"] = float(rng.choice([1, 1, 2, 3]))
@@ -1104,7 +1105,9 @@ def sibling_r0(chk, rng, quick):
     """screens of ONE geometry and outer scale built one after the other with different r0 (the layers of one atmosphere): the matrix A
     is the same for all of them and B·Bᵀ scales as r0^(-5/3) — exactly, both follow from the covariance being r0^(-5/3) times a function
     of the geometry and L0.  (Seeded change C05-K kept A and B in a module-level memo keyed on geometry and L0 only: later screens
-    drove their recursion with the first screen's B; every history clause compares an object with its OWN matrices.)"""
+    drove their recursion with the first screen's B; every history clause compares an object with its OWN matrices.)
+    Lean: `stationary_scales` / `stationary_scales_unique` — with the same A and B'·B'ᵀ = s·B·Bᵀ the stationary covariance of the
+    sibling is s times the first screen's."""
     for k in range(4 if quick else 40):
         cfg = gen_cfg(rng, 10 if quick else 20)
         r0s = [cfg["r0"], cfg["r0"] * rng.choice([0.25, 0.5, 2.0, 4.0]), cfg["r0"] * rng.choice([0.125, 3.0])]
